@@ -382,7 +382,7 @@ def generate(tier, rng):
                             source=SOURCES[c % 4], seed=rng.randrange(10 ** 6))
     # ---- seeded random members (thorough only)
     if thorough:
-        for i in range(120):
+        for i in range(360):
             nx, ny, X, Y, halo = _random_grid(rng)
             px, py, dx, dy, _ = pad_widths(nx, ny, X, Y, halo)
             an = rng.random() < 0.3
